@@ -189,6 +189,14 @@ def check(repo: Repo, rep: Report) -> None:
                                         "timer is still cancellable)", floor=2)
     for mname in ("schedule", "schedule_relative"):
         m = repo.fn(AS, f"AsyncIOScheduler.{mname}")
+        n_c = 0
+        for g in m.children:
+            if g.is_func:
+                for x in sites(g):
+                    if isinstance(x.node, ast.Call) and isinstance(x.node.func, ast.Attribute) and x.node.func.attr == "cancel":
+                        n_c += 1
+        rep.ob("P5-cancel-unconditional", m, f"AsyncIOScheduler.{mname}: the dispose closure cancels the handle ({n_c} cancel call)", n_c >= 1,
+               f"AsyncIOScheduler.{mname}: no closure cancels the asyncio handle any more: dispose() returns and the action still starts")
         for g in m.children:
             if g.is_func:
                 for x in sites(g):
